@@ -19,7 +19,21 @@ STMT_OPS = {
     "layout.align=layout.align.max(member_layout.align)": "maxAlign",
     "layout.size=layout.size.next_multiple_of(layout.align)": "roundSizeToAlign",
     "layout.size*=u32::try_from(count).unwrap()": "mulSizeCount",
+    # since fix 24ea36f: the checked forms, `None` (= "unknown size") instead of a panic
+    "layout.size=layout.size.checked_next_multiple_of(member_layout.align)?": "alignUpToMemberChecked",
+    "layout.size=layout.size.checked_add(member_layout.size)?": "addMemberSizeChecked",
+    "layout.size=layout.size.checked_next_multiple_of(layout.align)?": "roundSizeToAlignChecked",
+    "layout.size=layout.size.checked_mul(u32::try_from(count).ok()?)?": "mulSizeCountChecked",
 }
+# since fix d25724e: `if def.members.is_empty() && matches!(mode, PackingMode::Metal) { layout.size = 1; }` in the tail of
+# the Struct arm: an op of the named mode only
+EMPTY_STRUCT_RX = re.compile(r"ifdef\.members\.is_empty\(\)&&matches!\(mode,PackingMode::([A-Za-z]+)\)\{layout\.size=1;\}")
+EMPTY_STRUCT_OP = "sizeOneIfNoMembers"
+# the statements of the global loop of `check_layout` that peel the global's type before the `Object` test
+PEEL_OPS = {"remove_modifier": "removeModifier", "get_non_array_id": "nonArray"}
+# since fix bdddd35: the loop that removes a modifier after every array layer
+PEEL_WHILE = "whileletTypeLayer::Array(inner,_)=module.type_registry.get_type_layer(ty){ty=module.type_registry.remove_modifier(inner);}"
+PEEL_WHILE_OP = "whileArrayRemoveModifier"
 MODES = ["HlslStructuredBuffer", "Metal"]
 
 
@@ -88,6 +102,10 @@ def register(gen, T):
                     raise ExtractError(f"{what}: match mode covers {sorted(seen)}")
             else:
                 k = squeeze(s)
+                em = EMPTY_STRUCT_RX.fullmatch(k)
+                if em and what == "Struct arm tail" and em.group(1) in MODES:
+                    per[em.group(1)].append(EMPTY_STRUCT_OP)
+                    continue
                 if k not in STMT_OPS:
                     raise ExtractError(f"{what}: statement {normws(s)!r} is outside the op vocabulary")
                 for m in MODES:
@@ -107,6 +125,10 @@ def register(gen, T):
         "ifoffset_hlsl!=offset_metal||!offsets_match(module,member.type_id)?{returnSome(false);}": "requireEqualThenRecurse",
         "offset_hlsl+=hlsl.size": "advanceHlsl",
         "offset_metal+=metal.size": "advanceMetal",
+        "offset_hlsl=offset_hlsl.checked_next_multiple_of(hlsl.align)?": "alignHlslChecked",
+        "offset_metal=offset_metal.checked_next_multiple_of(metal.align)?": "alignMetalChecked",
+        "offset_hlsl=offset_hlsl.checked_add(hlsl.size)?": "advanceHlslChecked",
+        "offset_metal=offset_metal.checked_add(metal.size)?": "advanceMetalChecked",
     }
     ARR_OPS = {
         "ifcount==0{returnSome(true);}": "zeroCountTrue",
@@ -114,6 +136,8 @@ def register(gen, T):
         "letmetal=get_type_layout(module,inner,PackingMode::Metal)?": "getMetal",
         "ifcount>1&&hlsl.size.next_multiple_of(hlsl.align)!=metal.size.next_multiple_of(metal.align){returnSome(false);}":
             "requireEqualStrideIfSeveral",
+        "ifcount>1&&hlsl.size.checked_next_multiple_of(hlsl.align)?!=metal.size.checked_next_multiple_of(metal.align)?{returnSome(false);}":
+            "requireEqualStrideIfSeveralChecked",
         "offsets_match(module,inner)": "recurse",
     }
 
@@ -189,6 +213,52 @@ def register(gen, T):
         out.append(f"/-- `Modifier(_, ty) => offsets_match(module, ty)`; every other layer is `Some(true)` -/\n"
                    f"def offsetsModifierIsInner : Bool := {'true' if modifier_inner else 'false'}\n")
         return "".join(out)
+
+    def peel_ops(text):
+        """the `let ty = module.type_registry.<f>(..);` statements at the head of the global loop -> peel ops"""
+        ops = []
+        rest = text
+        first = True
+        while rest:
+            if not first and rest.startswith(PEEL_WHILE):
+                ops.append(PEEL_WHILE_OP)
+                rest = rest[len(PEEL_WHILE):]
+                continue
+            m = re.match(r"let(?:mut)?ty=module\.type_registry\.([a-z_]+)\(([a-z_.]+)\);", rest)
+            if not m or m.group(1) not in PEEL_OPS or m.group(2) != ("global.type_id" if first else "ty"):
+                raise ExtractError("check_layout: the statements that peel the global's type changed: " + rest[:80])
+            ops.append(PEEL_OPS[m.group(1)])
+            rest = rest[m.end():]
+            first = False
+        if not ops:
+            raise ExtractError("check_layout: the global loop no longer derives `ty` from `global.type_id`")
+        return ops
+
+    WANT_DEPENDENT = ("matchmodule.type_registry.get_type_layer(ty){TypeLayer::TemplateParam(_)=>true,"
+                      "TypeLayer::Vector(inner,_)|TypeLayer::Matrix(inner,_,_)|TypeLayer::Array(inner,_)"
+                      "|TypeLayer::Modifier(_,inner)=>is_dependent_type(module,inner),_=>false,}")
+
+    def dependent_skip(text, lc):
+        """the optional `if is_dependent_type(module, ty) { continue; }` of the function loop"""
+        if text == "":
+            return False
+        if text != "ifis_dependent_type(module,ty){continue;}":
+            raise ExtractError("check_layout: unexpected statement before types_seen.insert(ty): " + text[:80])
+        if squeeze(fn_body(lc, "is_dependent_type")) != WANT_DEPENDENT:
+            raise ExtractError("is_dependent_type changed")
+        return True
+
+    def peel_helpers_pinned(ir_types):
+        """the hand-modelled helpers of the type registry the global loop uses"""
+        want = {
+            "extract_modifier": "matchself.get_type_layer(id){TypeLayer::Modifier(modifier,inner)=>(inner,modifier),"
+                                "_=>(id,TypeModifier::default()),}",
+            "remove_modifier": "self.extract_modifier(id).0",
+            "get_non_array_id": "matchself.get_type_layer(id){TypeLayer::Array(inner,_)=>self.get_non_array_id(inner),_=>id,}",
+        }
+        for name, text in want.items():
+            if squeeze(fn_body(ir_types, name)) != text:
+                raise ExtractError(f"TypeRegistry::{name} changed")
 
     # ------------------------------------------------------------------------------------------
     # LayoutSites: where could a structure be the element type of a buffer access (inventory taken from the
@@ -271,7 +341,7 @@ def register(gen, T):
         cb = squeeze(fn_body(lc, "check_layout"))
         want_head = "letmuttypes_to_check=Vec::new();letmuttypes_seen=HashSet::new();"
         want_globals = ("forglobalin&module.global_registry{"
-                        "letty=module.type_registry.remove_modifier(global.type_id);"
+                        "@PEEL@"
                         "lettyl=module.type_registry.get_type_layer(ty);"
                         "leto=matchtyl{TypeLayer::Object(o)=>o,_=>continue,};"
                         "matcho{@OBJS@=>{iftypes_seen.insert(st){types_to_check.push((st,global.name.location));}}_=>{}}}")
@@ -284,6 +354,7 @@ def register(gen, T):
                     "iftemplate_data.template_args.len()!=1{panic!(\"invalid{:?}intrinsic\",intrinsic_data);}"
                     "letty=matchtemplate_data.template_args[0]{TypeOrConstant::Type(ty)=>ty,"
                     "TypeOrConstant::Constant(_)=>panic!(\"invalid{:?}intrinsic\",intrinsic_data),};"
+                    "@DEP@"
                     "iftypes_seen.insert(ty){types_to_check.push((ty,module.get_type_location(ty)));}}")
         def pattern(template):
             parts = re.split(r"@[A-Z]+@", template)
@@ -294,20 +365,25 @@ def register(gen, T):
         if not mm:
             raise ExtractError("check_layout: the collection loops changed (globals: remove_modifier, Object test, "
                                "types_seen; functions: intrinsic list, template data, one type argument)")
-        if not re.fullmatch(r"ObjectType::[A-Za-z0-9]+\(st\)(\|ObjectType::[A-Za-z0-9]+\(st\))*", mm.group(1)):
+        peel = peel_ops(mm.group(1))
+        if not re.fullmatch(r"ObjectType::[A-Za-z0-9]+\(st\)(\|ObjectType::[A-Za-z0-9]+\(st\))*", mm.group(2)):
             raise ExtractError("check_layout: object patterns changed")
-        if not re.fullmatch(r"Intrinsic::[A-Za-z0-9]+(\|Intrinsic::[A-Za-z0-9]+)*", mm.group(2)):
+        if not re.fullmatch(r"Intrinsic::[A-Za-z0-9]+(\|Intrinsic::[A-Za-z0-9]+)*", mm.group(3)):
             raise ExtractError("check_layout: intrinsic patterns changed")
+        dependent_skip(mm.group(4), lc)
+        peel_helpers_pinned(ir_types)
         gloc = fn_body(T.src("ir/src/ir_module.rs"), "get_type_location")
         want_loc = ("letid=self.type_registry.remove_modifier(id);matchself.type_registry.get_type_layer(id){"
                     "TypeLayer::Struct(id)=>{assert!(id.0<self.struct_registry.lenasu32);"
                     "self.struct_registry[id.0asusize].name.location}_=>SourceLocation::UNKNOWN,}")
         if squeeze(gloc).replace("len()", "len") != want_loc:
             raise ExtractError("get_type_location changed")
-        out.append("/-- the global loop looks below `Modifier` layers only (`remove_modifier`), then requires an `Object` layer -/\n"
-                   "def globalLoopStripsModifier : Bool := true\n"
-                   "/-- it does not look below `Array` layers -/\n"
-                   "def globalLoopStripsArray : Bool := false\n"
+        out.append("/-- the global loop looks below a `Modifier` layer (`remove_modifier`) before it requires an `Object` layer -/\n"
+                   f"def globalLoopStripsModifier : Bool := {'true' if 'removeModifier' in peel else 'false'}\n"
+                   "/-- it looks below `Array` layers (`get_non_array_id` since fix d99f90e; a loop that also removes a\n"
+                   "    modifier after every array layer since fix bdddd35) -/\n"
+                   f"def globalLoopStripsArray : Bool := {'true' if ('nonArray' in peel or PEEL_WHILE_OP in peel) else 'false'}\n"
+
                    "/-- both loops skip a type id that was collected before (`types_seen`) -/\n"
                    "def dedupByTypeId : Bool := true\n"
                    "/-- the function loop needs template instantiation data with exactly one type argument -/\n"
@@ -381,7 +457,7 @@ def register(gen, T):
         out.append("\n")
 
         # ---- op vocabulary
-        ops = sorted(set(STMT_OPS.values()))
+        ops = sorted(set(STMT_OPS.values()) | {EMPTY_STRUCT_OP})
         out.append("/-- one `u32` statement of `get_type_layout` (fixed vocabulary of the translator) -/\n"
                    "inductive Op where\n" + "".join(f"  | {o}\n" for o in ops) +
                    "  deriving DecidableEq, Repr, Inhabited\n\n")
@@ -515,6 +591,22 @@ def register(gen, T):
         if not mi:
             raise ExtractError("check_layout: intrinsic list not found")
         intr = re.findall(r"Intrinsic::([A-Za-z0-9]+)", mi.group(1))
+        cbs = squeeze(cb)
+        gm = re.search(r"forglobalin&module\.global_registry\{(.*?)lettyl=module\.type_registry\.get_type_layer\(ty\);", cbs)
+        dm = re.search(r"TypeOrConstant::Constant\(_\)=>panic!\(\"invalid\{:\?\}intrinsic\",intrinsic_data\),\};(.*?)"
+                       r"iftypes_seen\.insert\(ty\)", cbs)
+        if not gm or not dm:
+            raise ExtractError("check_layout: collection loops not found")
+        peel = peel_ops(gm.group(1))
+        skips_dependent = dependent_skip(dm.group(1), lc)
+        out.append("/-- one statement of the global loop that peels the global's type before the `Object` test -/\n"
+                   "inductive PeelOp where\n" + "".join(f"  | {o}\n" for o in sorted(set(PEEL_OPS.values()) | {PEEL_WHILE_OP})) +
+                   "  deriving DecidableEq, Repr, Inhabited\n\n"
+                   "/-- `let ty = module.type_registry.<f>(..);` at the head of the global loop, in order -/\n"
+                   "def globalPeelOps : List PeelOp := " + T.lean_list("." + o for o in peel) + "\n\n"
+                   "/-- the function loop skips a type argument that still depends on a template parameter\n"
+                   "    (`if is_dependent_type(module, ty) { continue; }`; since fix c062f2e) -/\n"
+                   f"def fnLoopSkipsDependent : Bool := {'true' if skips_dependent else 'false'}\n\n")
         out.append("/-- object kinds whose element type `check_layout` validates -/\n"
                    "def checkedObjects : List String := " + T.lean_list(T.lean_str(o) for o in objs) + "\n\n")
         out.append("/-- intrinsics whose template argument `check_layout` validates -/\n"
